@@ -23,7 +23,8 @@ H = "c08_serializer"
 TA = ["<p a=", "<svg xlink:href=", "<input disabled=", "x", " ", '"', "'", "=", "<", ">", "`", "&amp;", "&lt;", "é", "\n", "/", "&#0;x",
       "disabled", " b=", "&quot;", "&#39;"]
 TT = ["x", "<", ">", "&amp;", "&lt;", '"', "'", "-", "<!--", "-->", "<title>", "</title>", "<style>", "</style>", "<svg>", "</svg>",
-      "<script>", "</script>", "<![CDATA[", "]]>", "<noscript>", "</noscript>", "<plaintext>", "<p>", "é", "\n", "<!-", "<!DOCTYPE a PUBLIC 'b\"c' \"d'e\">", "</", "&lt;b&gt;"]
+      "<script>", "</script>", "<![CDATA[", "]]>", "<noscript>", "</noscript>", "<plaintext>", "<p>", "é", "\n", "<!-", "<!DOCTYPE a PUBLIC 'b\"c' \"d'e\">", "</", "&lt;b&gt;", "&amp;lt;", "&amp;amp;", "&amp;#65;", "<textarea>",
+      "</textarea>", "&lt;/textarea&gt;", "&lt;/title&gt;"]
 tw.THEMES.setdefault("TA", TA)
 tw.THEMES.setdefault("TT", TT)
 
@@ -222,7 +223,7 @@ def step(ctx, word):
 # ---- (B) hand-built streams x full option cross product ------------------------------------------------
 
 VAL = ["a", " ", '"', "'", "=", "<", ">", "`", "&", "é", "\n", "\t", "/"]
-TXT = ["x", "<", ">", "&", '"', "'", "-", "é", "\n", "]", "/", "!"]
+TXT = ["x", "<", ">", "&", '"', "'", "-", "é", "\n", "]", "/", "!", "&lt;", "&amp;", "&#65;", "&copy"]
 TEXT_CTX = [("p", HTML_NS), ("title", HTML_NS), ("textarea", HTML_NS), ("style", HTML_NS), ("script", HTML_NS), ("xmp", HTML_NS),
             ("svg", SVG_NS), ("style", SVG_NS), ("title", SVG_NS), ("mi", MATHML_NS), ("pre", HTML_NS)]
 
